@@ -1824,6 +1824,7 @@ class AbsInt:
                         if a0[2] in ('Ok', 'Some') and a0[3]:
                             inner = ('call', argvals[1][1], (a0[3][0],), b)
                             path.calls.append((b, argvals[1][1], (a0[3][0],), dkey, dict(t, callee={'path': argvals[1][1], 'resolved': argvals[1][1], 'via': name}, args=[t['args'][0]])))
+                            path.callpos.append(len(path.blocks) - 1)
                             res = ('agg', a0[1], a0[2], (inner,))
                         elif a0[2] in ('Err', 'None'):
                             res = a0
@@ -1842,6 +1843,7 @@ class AbsInt:
                     elif argvals[0][2] == 'None' and argvals[1][0] == 'fn':
                         res = ('call', argvals[1][1], (), b)
                         path.calls.append((b, argvals[1][1], (), dkey, dict(t, callee={'path': argvals[1][1], 'resolved': argvals[1][1], 'via': name}, args=[])))
+                        path.callpos.append(len(path.blocks) - 1)
                 if res is None and name.endswith('Try>::branch') and argvals and argvals[0][0] == 'agg' and \
                         argvals[0][1] in ('core::result::Result', 'core::option::Option') and argvals[0][2] in ('Ok', 'Err', 'Some', 'None'):
                     a0 = argvals[0]
